@@ -117,6 +117,16 @@ def run(chk):
                     if not np.array_equal(h["F_hist"][-1], np.eye(3)):
                         fails.append((0, "deformation gradient changed under a zero velocity gradient"))
                     mon += [(sc, k, m) for k, m in fails]
+            # block-boundary grain counts: viscosity-bound regimes (texture must not move) and one dislocation regime
+            for sc in MT.block_scenarios(np.random.default_rng([chk.seed, 0xB10C]), chk.tier, regimes=(0, 7, 4),
+                                         sizes=(64, 128, 129, 256, 1024, 127) if chk.tier == "quick" else None, nupd=2):
+                sc["params"]["gbs_threshold"] = 0.0        # no sliding floor: the open finding is not what is probed here
+                h = c01.run_history(rec, sc)
+                c01.validate_traces(chk, h, bad)
+                if sc["regime"] in (0, 7):
+                    mon += [(sc, k, m) for k, m in null_history_fails(h, kf)]
+                else:
+                    mon += [(sc, k, m) for k, m in h["fails"]]
             # witness of the open finding (deterministic): dominant grain, chi = 0.5, zero L
             scw = MT.scenario(np.random.default_rng(777), regime=4, pair=(0, 0), n=6, tkind="nonuniform", nupd=1)
             scw["params"]["gbs_threshold"] = 0.5
